@@ -16,6 +16,7 @@ import (
 	"strconv"
 	"strings"
 	"sync"
+	"sync/atomic"
 	"testing/synctest"
 
 	ct "github.com/google/certificate-transparency-go"
@@ -78,9 +79,13 @@ type op struct {
 	RealBusy  int
 }
 
+// histEnt is one committed head of a log. In stepped mode the commit happened
+// in driver step `step` (begin == step); in timed mode it took effect at some
+// moment between the clock stamps begin and step.
 type histEnt struct {
-	step int
-	h    *sth
+	step  int
+	begin int
+	h     *sth
 }
 
 // World is the witness world.
@@ -113,6 +118,11 @@ type World struct {
 	hist   map[int][]histEnt
 	known  map[string]*sth
 	signed map[string]*signedHead
+
+	// timed mode only (kernel.TimedWorld): real-time stamps and the lock that
+	// makes commit order, model and op generation one sequence
+	clock atomic.Int64
+	tmu   sync.Mutex
 
 	crashesLeft, faultsLeft int
 	crashes                 int
@@ -571,8 +581,13 @@ func (w *World) launch(o *op) {
 	s := w.s
 	w.active++
 	o.CallStep, o.CallT = s.Step(), int64(2*s.Step())
+	s.Go(func() { w.execute(o) })
+}
+
+// execute runs one operation against the current witness on the calling goroutine.
+func (w *World) execute(o *op) {
 	wit, handler, e := w.wit, w.handler, w.e
-	s.Go(func() {
+	{
 		e.register(o.Party)
 		defer e.unregister()
 		defer func() {
@@ -626,7 +641,7 @@ func (w *World) launch(o *op) {
 		o.mu.Lock()
 		o.Outcome, o.Body, o.Status, o.Logs, o.Done = outcome, body, code, logs, true
 		o.mu.Unlock()
-	})
+	}
 }
 
 // ---- driver options ----
@@ -645,19 +660,7 @@ func (w *World) relOpt(p *kernel.Parked, d kernel.Decision, weight int) kernel.O
 			if p.Name == "sql.query" && p.Digest == "select-sth" && d.Kind == "ok" {
 				o.SelectStep = s.Step()
 			}
-			if p.Name == "sql.commit" {
-				o.CommitReached = true
-				if d.Kind != "ok" {
-					o.CommitFaulted = true
-				}
-				if d.S == "lost-ack" {
-					o.LostAck = true
-					s.Probe("commit.lost-ack")
-				}
-			}
-			if d.Kind != "ok" {
-				o.Faulted = true
-			}
+			w.markDecision(o, p, d)
 		}
 		if d.Kind != "ok" {
 			w.faultsLeft--
@@ -665,6 +668,23 @@ func (w *World) relOpt(p *kernel.Parked, d kernel.Decision, weight int) kernel.O
 		}
 		s.Release(p, d)
 	}}
+}
+
+// markDecision records on the operation what was decided for one of its statements.
+func (w *World) markDecision(o *op, p *kernel.Parked, d kernel.Decision) {
+	if p.Name == "sql.commit" {
+		o.CommitReached = true
+		if d.Kind != "ok" {
+			o.CommitFaulted = true
+		}
+		if d.S == "lost-ack" {
+			o.LostAck = true
+			w.s.Probe("commit.lost-ack")
+		}
+	}
+	if d.Kind != "ok" {
+		o.Faulted = true
+	}
 }
 
 // Options implements kernel.World.
